@@ -233,8 +233,8 @@ def _job_lex(args):
 LEX_DEEP = [36, 32, 12, 10, 13, 97, 255]      # the bytes the lexer's special cases are about: $ blank formfeed LF CR letter 0xFF
 def lexer_cases(tier, binary, asan=None, families=("all", "kw"), maxlen=None):
     """Ninja lexer in its four modes against spec/fn/NinjaLex.tla.
-    family "all": every buffer up to MaxLen over the 12-byte format alphabet (quick 4, thorough 6), and two bytes deeper over
-    the 7 bytes the lexer's special cases are about; "kw": keyword spellings +-1 char in contexts"""
+    family "all": every buffer up to MaxLen over the 12-byte format alphabet (quick 4, thorough 6), and deeper (quick 6, thorough 7)
+    over the 7 bytes the lexer's special cases are about; "kw": keyword spellings +-1 char in contexts"""
     if maxlen is None: maxlen = 4 if tier == "quick" else 6
     jobs = []
     if "all" in families:
@@ -242,7 +242,7 @@ def lexer_cases(tier, binary, asan=None, families=("all", "kw"), maxlen=None):
             jobs.append(dict(MaxLen=maxlen, First=f, Second=g, Family='"all"'))
         deep = maxlen + 2 if maxlen <= 4 else maxlen + 1
         for f, g in partitions2(LEX_DEEP, 1 if deep <= 6 else 8, with_empty=False):
-            jobs.append(dict(MaxLen=maxlen + 2, First=f, Second=g, Family='"all"', Alphabet=setstr(LEX_DEEP)))
+            jobs.append(dict(MaxLen=deep, First=f, Second=g, Family='"all"', Alphabet=setstr(LEX_DEEP)))
     if "kw" in families:
         jobs.append(dict(MaxLen=0, Family='"kw"'))
     bad = []; summary = Cases(); ps = []
